@@ -2515,7 +2515,7 @@ func (self *LockDB) UnLock(serverProtocol ServerProtocol, command *protocol.Lock
 
 func (self *LockDB) doLock(lockManager *LockManager, lock *Lock) bool {
 	if lockManager.locked == 0 {
-		return true
+		return lock.command.TimeoutFlag&protocol.TIMEOUT_FLAG_LOCK_WAIT_WHEN_UNLOCK == 0
 	}
 	if lock.command.Count == 0 {
 		return false
